@@ -87,9 +87,9 @@ func discharge(ob *Obligation, query string, dir string, timeoutMs int, all bool
 	if pq := pruneKinds(query); len(pq) < len(query) {
 		pfile := strings.TrimSuffix(file, ".smt2") + ".pruned.smt2"
 		if os.WriteFile(pfile, []byte(pq), 0o644) == nil {
-			pt := timeoutMs
-			if pt > 6000 {
-				pt = 6000
+			pt := timeoutMs * 3 / 10
+			if pt < 3000 {
+				pt = timeoutMs
 			}
 			pr := runSolver(solvers[0], pfile, pt)
 			if pr.verdict == "unsat" {
@@ -259,4 +259,54 @@ func dischargeAll(results []*FuncResult, dir string, timeoutMs int, all bool, wo
 	}
 	close(ch)
 	wg.Wait()
+
+	// Second pass. `unknown`/`timeout` is not an answer, and on a loaded machine
+	// (other checks, test suites running beside this one) a query that needs
+	// 10 s of CPU does not finish inside a 20 s wall-clock limit. Every
+	// obligation that is undecided after the first pass is tried again with
+	// four times the limit and half the workers, inside a wall-clock budget;
+	// only what is still undecided then is reported.
+	var again []job
+	for _, j := range jobs {
+		if j.ob.Expect == "unsat" && (j.ob.Verdict == "unknown" || j.ob.Verdict == "timeout") {
+			again = append(again, j)
+		}
+	}
+	if len(again) == 0 {
+		return
+	}
+	budget := 8 * time.Duration(timeoutMs) * time.Millisecond
+	if budget < 4*time.Minute {
+		budget = 4 * time.Minute
+	}
+	deadline := time.Now().Add(budget)
+	w2 := workers / 2
+	if w2 < 1 {
+		w2 = 1
+	}
+	ch2 := make(chan job)
+	var wg2 sync.WaitGroup
+	for i := 0; i < w2; i++ {
+		wg2.Add(1)
+		go func() {
+			defer wg2.Done()
+			for j := range ch2 {
+				if time.Now().After(deadline) {
+					continue
+				}
+				first := j.ob.Solver
+				firstMs := j.ob.Millis
+				q := j.vc.buildQuery(j.ob, true)
+				j.ob.Model = ""
+				discharge(j.ob, q, dir, timeoutMs*4, false)
+				j.ob.Millis += firstMs
+				j.ob.Solver = j.ob.Solver + " {second pass, limit x4; first pass: " + first + "}"
+			}
+		}()
+	}
+	for _, j := range again {
+		ch2 <- j
+	}
+	close(ch2)
+	wg2.Wait()
 }
